@@ -187,4 +187,19 @@ var mutants = []mutant{
 	{"C20-m3", "C20", "grogu/signaller/signaller.go", "		if _, ok := s.pendingSignalIDs.Load(signalID); !ok {\n			filtered = append(filtered, signalID)\n		}", "		filtered = append(filtered, signalID)", "C20.R3:non-pending-means-not-in-set", "a signal in flight is submitted again"},
 	{"C20-m4", "C20", "grogu/signaller/signaller.go", "	feed, ok := s.signalIDToFeed[newPrice.SignalID]\n	if !ok {\n		return false\n	}", "	feed := s.signalIDToFeed[newPrice.SignalID]", "C20.R3:must-be-current-feed", "prices for signals that are not current feeds are submitted and rejected"},
 	{"C20-m5", "C20", "grogu/signaller/utils.go", "	return deviationBasisPoint <= dev", "	return deviationBasisPoint < dev", "C20.R5:deviation-threshold-inclusive", "a move of exactly the deviation is not reported"},
+	// ---------------- wave-2 engines (E13-E17)
+	{"C04-m10", "C04", "x/tss/keeper/keeper_group_round3.go", "	return ctx.KVStore(k.storeKey).Has(types.ConfirmStoreKey(groupID, memberID))", "	return ctx.KVStore(k.storeKey).Has(types.ConfirmsStoreKey(groupID))", "C04.R7:store-keys", "HasConfirm probes the iteration prefix: duplicate confirms are never seen"},
+	{"C10-m10", "C10", "x/bandtss/keeper/tss_callback.go", "		if err != nil || !member.IsActive {\n			continue\n		}", "		if err != nil || !member.IsActive {\n			return\n		}", "C10.R5:penalise-every-idle-member", "later idle members escape the penalty"},
+	{"C03-m10", "C03", "x/tss/types/msgs.go", "	if err := m.Signature.Validate(); err != nil {", "	if err := m.Signature.R().Validate(); err != nil {", "C03.R6:wire", "over-long signatures pass stateless validation"},
+	{"C09-m10", "C09", "x/oracle/types/params.go", "validateUint64(\"sampling try count\", true)", "validateUint64(\"sampling try count\", false)", "C09.R1:tries-positive", "zero tries accepted: empty committees"},
+	{"C19-m10", "C19", "yoda/execute.go", "	return nil, lastErr", "	_ = lastErr\n	return nil, nil", "C19.R7:query-", "nil result with nil error after the retries: nil dereference in the fetchers"},
+	{"C20-m10", "C20", "grogu/signaller/signaller.go", "	s.signalIDToFeed = sliceToMap(resp.CurrentFeeds.Feeds, func(feed types.FeedWithDeviation) string {\n		return feed.SignalID\n	})", "	for _, feed := range resp.CurrentFeeds.Feeds {\n		s.signalIDToFeed[feed.SignalID] = feed\n	}", "C20.R3:feeds-view", "removed feeds stay in the daemon's view"},
+	{"C02-m10", "C02", "pkg/tickmath/tickmath.go", "	priceX96 = new(big.Int).Mul(priceX96, billion)\n", "	priceX96 = new(big.Int).Mul(priceX96, billion)\n	zero = priceX96\n", "C02.R1:lint", "consensus code writes a package variable"},
+	{"C11-m10", "C11", "pkg/tickmath/tickmath.go", "	if msb >= 32 {", "	if msb > 32 {", "C11.R7:shift-counts", "31 - msb wraps for msb == 32"},
+	{"C02-m11", "C02", "x/feeds/keeper/keeper_price.go", "		valPricesList, err := k.GetValidatorPriceList(ctx, val.Address)\n		if err != nil {\n			continue\n		}", "		valPricesList, err := k.GetValidatorPriceList(ctx, val.Address)\n		if err != nil {\n			return err\n		}", "C02.R10:abci-errors", "a new way for the feeds end-blocker to fail"},
+	{"C02-m12", "C02", "x/feeds/keeper/keeper_price.go", "!availablePower.IsPositive() || ", "", "C02.R10:median-needs-available-power", "finding F4 returns"},
+	{"C16-m10", "C16", "x/restake/keeper/keeper_stake.go", "	for _, denom := range allowedDenoms {\n		power = power.Add(stake.Coins.AmountOf(denom))\n	}", "	for _, coin := range stake.Coins {\n		power = power.Add(coin.Amount)\n	}\n	_ = allowedDenoms", "C16.R4:staked-power", "delisted denoms keep counting as power"},
+	{"C15-m10", "C15", "x/feeds/keeper/msg_server.go", "types.NewValidatorPrice(msgPrice, blockTime, blockHeight)", "types.NewValidatorPrice(msgPrice, msg.Timestamp, blockHeight)", "C15.R5:stored-price-at-block-time", "the validator's own clock decides when it is reported missing"},
+	{"C02-m13", "C02", "x/tss/types/helpers.go", "	slot := to - 1\n", "	slot := to - 1\n	slot = slot - from + from\n", "C02.R9:usub", "a new unguarded unsigned subtraction in consensus code"},
+	{"C01-m10", "C01", "x/oracle/abci.go", "		k.ResolveRequest(ctx, reqID)\n", "		k.ResolveRequest(ctx, reqID)\n		if reqID == 0 {\n			break\n		}\n", "every-pending-request-resolved", "an early way out of the resolve loop"},
 }
